@@ -1,6 +1,7 @@
 import NodisVerif.Proofs.C16Step
 import NodisVerif.Proofs.C16Wire
 import NodisVerif.Proofs.C16Bulk
+import NodisVerif.Proofs.C16Full
 import NodisVerif.Props.C08
 /-
   C16 — exactly one well-formed RESP reply per command, in order; pipelines stay in sync.
@@ -10,8 +11,9 @@ import NodisVerif.Props.C08
   RESP2 specification).  `toValue` (Proofs/C16Parse.lean) is the value a complete token list denotes.
   Dispatch: `step` / `run` (Proofs/C08Step.lean) for an ARBITRARY handler table `H` satisfying the
   explicit well-formedness predicate `TableOneReply H` (every handler result is one value, for all
-  stores, clocks and choices, panics included); discharged for `Handler.table1` except MGET, which
-  is a FINDING (below).
+  stores, clocks and choices, panics included); discharged for the server's COMPLETE dispatch
+  `fullTable = Driver.lookup [Handler.table1, Handler2.table2, Handler3.table3]` (`Main.tables`),
+  without exception: `fullTable_ok`.  (MGET was a finding; the `fix:` is modelled and proved.)
 
   Side conditions of the wire-level theorems, both necessary (`arrOK_necessary`, `linesOK_necessary`):
   `ArrOK ts`: every array header has a count ≥ -1 (the writer would print `*-5` for `WriteArray(-5)`);
@@ -120,212 +122,367 @@ theorem queued_inside_multi (H : Table) (sv : Server) (c : Cmd) (hs : ¬ special
   have := (C08.queued_has_no_effect H sv c hs b hH hst).1
   exact ⟨this, by rw [this]; exact oneValue_queued⟩
 
-/-! ### `Handler.table1` -/
+/-! ### `Handler.table1` (connection / keyspace / string families) -/
 
-/-- `Handler.table1` without MGET satisfies the well-formedness predicate -/
-def table1NoMGet : Table := fun name args => if name = "MGET" then none else Handler.table1 name args
-
-theorem table1NoMGet_ok : TableOneReply table1NoMGet := by
-  intro name args r h
-  unfold table1NoMGet at h
-  split at h
-  · cases h
-  · next hm => exact Proofs.C16Handlers.table1_one_reply name args r h hm
-
-/-- every `table1` command except MGET, every argument vector, every server state (inside or outside
-    MULTI: inside it is `+QUEUED` or the handler's own error): one value -/
-theorem one_reply_table1 (sv : Server) (c : Cmd) (hs : ¬ special c.name) (hm : c.name ≠ "MGET") :
-    oneValue (step Handler.table1 sv c).2 = true := by
-  show oneValue (dispatch Handler.table1 sv c).2 = true
-  rw [dispatch_table Handler.table1 sv c hs]
-  cases hH : Handler.table1 c.name c.args with
+/-- a command that goes through the handler table (any name but MULTI/EXEC/DISCARD/WATCH/UNWATCH),
+    any arguments, any server state — inside MULTI it is `+QUEUED` or the handler's own error reply,
+    outside the closure's reply; unknown name: one error — draws one value.  No assumption on queues. -/
+theorem one_reply_nonspecial {H : Table} (hH : TableOneReply H) (sv : Server) (c : Cmd) (hs : ¬ special c.name) :
+    oneValue (step H sv c).2 = true := by
+  show oneValue (dispatch H sv c).2 = true
+  rw [dispatch_table H sv c hs]
+  cases hr : H c.name c.args with
   | none => exact oneValue_err 0
   | some r =>
-    have hr := Proofs.C16Handlers.table1_one_reply c.name c.args r hH hm
+    have h := hH c.name c.args r hr
     cases r with
-    | direct ts => exact hr
+    | direct ts => exact h
     | crash => exact oneValue_err 0
-    | exec b => exact execCommand_one _ _ _ _ _ (fun st now ch => hr st now ch)
+    | exec b => exact execCommand_one _ _ _ _ _ (fun st now ch => h st now ch)
+
+/-- the whole of `Handler.table1` satisfies the well-formedness predicate (MGET included, since the
+    `fix:` that makes MGET read all its keys before it writes the array header) -/
+theorem table1_ok : TableOneReply Handler.table1 := Proofs.C16Handlers.table1_one_reply
+
+/-- every `table1` command, every argument vector, every server state: one value -/
+theorem one_reply_table1 (sv : Server) (c : Cmd) (hs : ¬ special c.name) :
+    oneValue (step Handler.table1 sv c).2 = true := one_reply_nonspecial table1_ok sv c hs
 
 theorem one_reply_per_command_PING (sv : Server) (c : Cmd) (hn : c.name = "PING") :
     oneValue (step Handler.table1 sv c).2 = true :=
-  one_reply_table1 sv c (by rw [hn]; decide) (by rw [hn]; decide)
+  one_reply_table1 sv c (by rw [hn]; decide)
 theorem one_reply_per_command_ECHO (sv : Server) (c : Cmd) (hn : c.name = "ECHO") :
     oneValue (step Handler.table1 sv c).2 = true :=
-  one_reply_table1 sv c (by rw [hn]; decide) (by rw [hn]; decide)
+  one_reply_table1 sv c (by rw [hn]; decide)
 theorem one_reply_per_command_DBSIZE (sv : Server) (c : Cmd) (hn : c.name = "DBSIZE") :
     oneValue (step Handler.table1 sv c).2 = true :=
-  one_reply_table1 sv c (by rw [hn]; decide) (by rw [hn]; decide)
+  one_reply_table1 sv c (by rw [hn]; decide)
 theorem one_reply_per_command_FLUSHDB (sv : Server) (c : Cmd) (hn : c.name = "FLUSHDB") :
     oneValue (step Handler.table1 sv c).2 = true :=
-  one_reply_table1 sv c (by rw [hn]; decide) (by rw [hn]; decide)
+  one_reply_table1 sv c (by rw [hn]; decide)
 theorem one_reply_per_command_FLUSHALL (sv : Server) (c : Cmd) (hn : c.name = "FLUSHALL") :
     oneValue (step Handler.table1 sv c).2 = true :=
-  one_reply_table1 sv c (by rw [hn]; decide) (by rw [hn]; decide)
+  one_reply_table1 sv c (by rw [hn]; decide)
 theorem one_reply_per_command_DEL (sv : Server) (c : Cmd) (hn : c.name = "DEL") :
     oneValue (step Handler.table1 sv c).2 = true :=
-  one_reply_table1 sv c (by rw [hn]; decide) (by rw [hn]; decide)
+  one_reply_table1 sv c (by rw [hn]; decide)
 theorem one_reply_per_command_UNLINK (sv : Server) (c : Cmd) (hn : c.name = "UNLINK") :
     oneValue (step Handler.table1 sv c).2 = true :=
-  one_reply_table1 sv c (by rw [hn]; decide) (by rw [hn]; decide)
+  one_reply_table1 sv c (by rw [hn]; decide)
 theorem one_reply_per_command_EXISTS (sv : Server) (c : Cmd) (hn : c.name = "EXISTS") :
     oneValue (step Handler.table1 sv c).2 = true :=
-  one_reply_table1 sv c (by rw [hn]; decide) (by rw [hn]; decide)
+  one_reply_table1 sv c (by rw [hn]; decide)
 theorem one_reply_per_command_EXPIRE (sv : Server) (c : Cmd) (hn : c.name = "EXPIRE") :
     oneValue (step Handler.table1 sv c).2 = true :=
-  one_reply_table1 sv c (by rw [hn]; decide) (by rw [hn]; decide)
+  one_reply_table1 sv c (by rw [hn]; decide)
 theorem one_reply_per_command_EXPIREAT (sv : Server) (c : Cmd) (hn : c.name = "EXPIREAT") :
     oneValue (step Handler.table1 sv c).2 = true :=
-  one_reply_table1 sv c (by rw [hn]; decide) (by rw [hn]; decide)
+  one_reply_table1 sv c (by rw [hn]; decide)
 theorem one_reply_per_command_KEYS (sv : Server) (c : Cmd) (hn : c.name = "KEYS") :
     oneValue (step Handler.table1 sv c).2 = true :=
-  one_reply_table1 sv c (by rw [hn]; decide) (by rw [hn]; decide)
+  one_reply_table1 sv c (by rw [hn]; decide)
 theorem one_reply_per_command_RANDOMKEY (sv : Server) (c : Cmd) (hn : c.name = "RANDOMKEY") :
     oneValue (step Handler.table1 sv c).2 = true :=
-  one_reply_table1 sv c (by rw [hn]; decide) (by rw [hn]; decide)
+  one_reply_table1 sv c (by rw [hn]; decide)
 theorem one_reply_per_command_TTL (sv : Server) (c : Cmd) (hn : c.name = "TTL") :
     oneValue (step Handler.table1 sv c).2 = true :=
-  one_reply_table1 sv c (by rw [hn]; decide) (by rw [hn]; decide)
+  one_reply_table1 sv c (by rw [hn]; decide)
 theorem one_reply_per_command_PTTL (sv : Server) (c : Cmd) (hn : c.name = "PTTL") :
     oneValue (step Handler.table1 sv c).2 = true :=
-  one_reply_table1 sv c (by rw [hn]; decide) (by rw [hn]; decide)
+  one_reply_table1 sv c (by rw [hn]; decide)
 theorem one_reply_per_command_PERSIST (sv : Server) (c : Cmd) (hn : c.name = "PERSIST") :
     oneValue (step Handler.table1 sv c).2 = true :=
-  one_reply_table1 sv c (by rw [hn]; decide) (by rw [hn]; decide)
+  one_reply_table1 sv c (by rw [hn]; decide)
 theorem one_reply_per_command_RENAME (sv : Server) (c : Cmd) (hn : c.name = "RENAME") :
     oneValue (step Handler.table1 sv c).2 = true :=
-  one_reply_table1 sv c (by rw [hn]; decide) (by rw [hn]; decide)
+  one_reply_table1 sv c (by rw [hn]; decide)
 theorem one_reply_per_command_RENAMENX (sv : Server) (c : Cmd) (hn : c.name = "RENAMENX") :
     oneValue (step Handler.table1 sv c).2 = true :=
-  one_reply_table1 sv c (by rw [hn]; decide) (by rw [hn]; decide)
+  one_reply_table1 sv c (by rw [hn]; decide)
 theorem one_reply_per_command_TYPE (sv : Server) (c : Cmd) (hn : c.name = "TYPE") :
     oneValue (step Handler.table1 sv c).2 = true :=
-  one_reply_table1 sv c (by rw [hn]; decide) (by rw [hn]; decide)
+  one_reply_table1 sv c (by rw [hn]; decide)
 theorem one_reply_per_command_SCAN (sv : Server) (c : Cmd) (hn : c.name = "SCAN") :
     oneValue (step Handler.table1 sv c).2 = true :=
-  one_reply_table1 sv c (by rw [hn]; decide) (by rw [hn]; decide)
+  one_reply_table1 sv c (by rw [hn]; decide)
 theorem one_reply_per_command_SET (sv : Server) (c : Cmd) (hn : c.name = "SET") :
     oneValue (step Handler.table1 sv c).2 = true :=
-  one_reply_table1 sv c (by rw [hn]; decide) (by rw [hn]; decide)
+  one_reply_table1 sv c (by rw [hn]; decide)
 theorem one_reply_per_command_MSET (sv : Server) (c : Cmd) (hn : c.name = "MSET") :
     oneValue (step Handler.table1 sv c).2 = true :=
-  one_reply_table1 sv c (by rw [hn]; decide) (by rw [hn]; decide)
+  one_reply_table1 sv c (by rw [hn]; decide)
 theorem one_reply_per_command_APPEND (sv : Server) (c : Cmd) (hn : c.name = "APPEND") :
     oneValue (step Handler.table1 sv c).2 = true :=
-  one_reply_table1 sv c (by rw [hn]; decide) (by rw [hn]; decide)
+  one_reply_table1 sv c (by rw [hn]; decide)
 theorem one_reply_per_command_SETEX (sv : Server) (c : Cmd) (hn : c.name = "SETEX") :
     oneValue (step Handler.table1 sv c).2 = true :=
-  one_reply_table1 sv c (by rw [hn]; decide) (by rw [hn]; decide)
+  one_reply_table1 sv c (by rw [hn]; decide)
 theorem one_reply_per_command_SETNX (sv : Server) (c : Cmd) (hn : c.name = "SETNX") :
     oneValue (step Handler.table1 sv c).2 = true :=
-  one_reply_table1 sv c (by rw [hn]; decide) (by rw [hn]; decide)
+  one_reply_table1 sv c (by rw [hn]; decide)
 theorem one_reply_per_command_GET (sv : Server) (c : Cmd) (hn : c.name = "GET") :
     oneValue (step Handler.table1 sv c).2 = true :=
-  one_reply_table1 sv c (by rw [hn]; decide) (by rw [hn]; decide)
+  one_reply_table1 sv c (by rw [hn]; decide)
 theorem one_reply_per_command_GETSET (sv : Server) (c : Cmd) (hn : c.name = "GETSET") :
     oneValue (step Handler.table1 sv c).2 = true :=
-  one_reply_table1 sv c (by rw [hn]; decide) (by rw [hn]; decide)
+  one_reply_table1 sv c (by rw [hn]; decide)
+theorem one_reply_per_command_MGET (sv : Server) (c : Cmd) (hn : c.name = "MGET") :
+    oneValue (step Handler.table1 sv c).2 = true :=
+  one_reply_table1 sv c (by rw [hn]; decide)
 theorem one_reply_per_command_SETRANGE (sv : Server) (c : Cmd) (hn : c.name = "SETRANGE") :
     oneValue (step Handler.table1 sv c).2 = true :=
-  one_reply_table1 sv c (by rw [hn]; decide) (by rw [hn]; decide)
+  one_reply_table1 sv c (by rw [hn]; decide)
 theorem one_reply_per_command_GETRANGE (sv : Server) (c : Cmd) (hn : c.name = "GETRANGE") :
     oneValue (step Handler.table1 sv c).2 = true :=
-  one_reply_table1 sv c (by rw [hn]; decide) (by rw [hn]; decide)
+  one_reply_table1 sv c (by rw [hn]; decide)
 theorem one_reply_per_command_STRLEN (sv : Server) (c : Cmd) (hn : c.name = "STRLEN") :
     oneValue (step Handler.table1 sv c).2 = true :=
-  one_reply_table1 sv c (by rw [hn]; decide) (by rw [hn]; decide)
+  one_reply_table1 sv c (by rw [hn]; decide)
 theorem one_reply_per_command_INCR (sv : Server) (c : Cmd) (hn : c.name = "INCR") :
     oneValue (step Handler.table1 sv c).2 = true :=
-  one_reply_table1 sv c (by rw [hn]; decide) (by rw [hn]; decide)
+  one_reply_table1 sv c (by rw [hn]; decide)
 theorem one_reply_per_command_DECR (sv : Server) (c : Cmd) (hn : c.name = "DECR") :
     oneValue (step Handler.table1 sv c).2 = true :=
-  one_reply_table1 sv c (by rw [hn]; decide) (by rw [hn]; decide)
+  one_reply_table1 sv c (by rw [hn]; decide)
 theorem one_reply_per_command_INCRBY (sv : Server) (c : Cmd) (hn : c.name = "INCRBY") :
     oneValue (step Handler.table1 sv c).2 = true :=
-  one_reply_table1 sv c (by rw [hn]; decide) (by rw [hn]; decide)
+  one_reply_table1 sv c (by rw [hn]; decide)
 theorem one_reply_per_command_DECRBY (sv : Server) (c : Cmd) (hn : c.name = "DECRBY") :
     oneValue (step Handler.table1 sv c).2 = true :=
-  one_reply_table1 sv c (by rw [hn]; decide) (by rw [hn]; decide)
+  one_reply_table1 sv c (by rw [hn]; decide)
 theorem one_reply_per_command_INCRBYFLOAT (sv : Server) (c : Cmd) (hn : c.name = "INCRBYFLOAT") :
     oneValue (step Handler.table1 sv c).2 = true :=
-  one_reply_table1 sv c (by rw [hn]; decide) (by rw [hn]; decide)
+  one_reply_table1 sv c (by rw [hn]; decide)
 theorem one_reply_per_command_SETBIT (sv : Server) (c : Cmd) (hn : c.name = "SETBIT") :
     oneValue (step Handler.table1 sv c).2 = true :=
-  one_reply_table1 sv c (by rw [hn]; decide) (by rw [hn]; decide)
+  one_reply_table1 sv c (by rw [hn]; decide)
 theorem one_reply_per_command_GETBIT (sv : Server) (c : Cmd) (hn : c.name = "GETBIT") :
     oneValue (step Handler.table1 sv c).2 = true :=
-  one_reply_table1 sv c (by rw [hn]; decide) (by rw [hn]; decide)
+  one_reply_table1 sv c (by rw [hn]; decide)
 theorem one_reply_per_command_BITCOUNT (sv : Server) (c : Cmd) (hn : c.name = "BITCOUNT") :
     oneValue (step Handler.table1 sv c).2 = true :=
-  one_reply_table1 sv c (by rw [hn]; decide) (by rw [hn]; decide)
+  one_reply_table1 sv c (by rw [hn]; decide)
 
-/-
-  FULL STATEMENT for MGET (false): `∀ sv c, c.name = "MGET" → oneValue (step Handler.table1 sv c).2`.
-  MGET writes the array header `*n` first and then one element per key; a key of the wrong type makes
-  the closure panic half-way, the recovery appends ONE error token: `*n`, j elements, `-WRONGTYPE`
-  with j + 1 < n is an incomplete array — the client's next replies are swallowed into it.
-  FINDING REGION (decidable, exact — `mGet_go_oneValue_iff`): `¬ MGetOK args store now`, i.e. the first
-  wrong-typed key is not the last one.
--/
-
-/-- MGET outside the finding region -/
-theorem one_reply_per_command_MGET_partial (sv : Server) (c : Cmd) (hn : c.name = "MGET")
-    (hreg : Proofs.C16Handlers.MGetOK c.args (prep sv.store) c.now) :
-    oneValue (step Handler.table1 sv c).2 = true := by
-  have hs : ¬ special c.name := by rw [hn]; decide
-  show oneValue (dispatch Handler.table1 sv c).2 = true
-  rw [dispatch_table Handler.table1 sv c hs]
-  have e : Handler.table1 c.name c.args = some (Handler.mGet c.args) := by rw [hn]; rfl
-  rw [e]
-  have hr := Proofs.C16Handlers.one_reply_mGet_partial c.args
-  cases hm : Handler.mGet c.args with
-  | direct ts => rw [hm] at hr; exact hr
-  | crash => exact oneValue_err 0
-  | exec b =>
-    rw [hm] at hr
-    simp only
-    rw [execCommand_eq]; split
-    · rw [runBody_toks]; exact hr _ _ _ hreg
-    · exact oneValue_queued
-
-/-- FINDING (witness): after `LPUSH a x`, the command `MGET a b` outside MULTI is answered by
-    `*2\r\n-WRONGTYPE …\r\n`, which is not one complete value -/
-theorem one_reply_per_command_MGET_finding :
+/-- MGET (a finding before the `fix:`): a wrong-typed key now gives the single error reply, whatever
+    its position — `MGET a b` after `LPUSH a x` -/
+theorem MGET_wrong_type_is_one_error :
     (step Handler.table1 { store := Proofs.C16Handlers.findingStore }
-      { id := "c", name := "MGET", args := [[97], [98]] }).2 = [Tok.arr 2, Tok.err 1] ∧
-    oneValue [Tok.arr 2, Tok.err 1] = false :=
-  ⟨by decide +kernel, Proofs.C16Handlers.oneValue_arr_short 2 [Tok.err 1] (by decide)⟩
+      { id := "c", name := "MGET", args := [[97], [98]] }).2 = [Tok.err 1] := by decide +kernel
 
-/-- … and what it does to a pipeline: the reader takes the NEXT command's reply as the second array
-    element, so every later reply is attributed to the wrong command -/
-theorem MGET_finding_desyncs_pipeline :
-    let sv : Server := { store := Proofs.C16Handlers.findingStore }
-    let replies := (run Handler.table1 sv
-      [{ id := "c", name := "MGET", args := [[97], [98]] }, { id := "c", name := "PING" }, { id := "c", name := "DBSIZE" }]).2
-    replies = [[Tok.arr 2, Tok.err 1], [Tok.bulk (Bytes.ofString "PONG")], [Tok.int 1]] ∧
-    parseMany 2 (replies.flatMap renderAll) =
-      some ([.array [.error (errText 1), .bulk (Bytes.ofString "PONG")], .int 1], []) := by
-  refine ⟨by decide +kernel, ?_⟩
-  have e : (run Handler.table1 { store := Proofs.C16Handlers.findingStore }
-      [{ id := "c", name := "MGET", args := [[97], [98]] }, { id := "c", name := "PING" }, { id := "c", name := "DBSIZE" }]).2
-      = [[Tok.arr 2, Tok.err 1], [Tok.bulk (Bytes.ofString "PONG")], [Tok.int 1]] := by decide +kernel
-  simp only [e]
-  -- the same bytes, grouped the way the reader groups them
-  have hb : [[Tok.arr 2, Tok.err 1], [Tok.bulk (Bytes.ofString "PONG")], [Tok.int 1]].flatMap renderAll =
-      [[Tok.arr 2, Tok.err 1, Tok.bulk (Bytes.ofString "PONG")], [Tok.int 1]].flatMap renderAll ++ [] := by
-    simp [renderAll]
-  rw [hb]
-  refine parseMany_renderAll [[Tok.arr 2, Tok.err 1, Tok.bulk (Bytes.ofString "PONG")], [Tok.int 1]] _ [] ?_ rfl
-  intro r hr
-  simp only [List.mem_cons, List.not_mem_nil, or_false] at hr
-  rcases hr with rfl | rfl
-  · refine ⟨?_, by decide, by decide⟩
-    exact Proofs.C16Handlers.oneValue_arr_flatten [[Tok.err 1], [Tok.bulk (Bytes.ofString "PONG")]]
-      (by
-        intro v hv
-        simp only [List.mem_cons, List.not_mem_nil, or_false] at hv
-        rcases hv with rfl | rfl <;> exact Proofs.C16Handlers.oneValue_scalar _ rfl)
-  · exact ⟨Proofs.C16Handlers.oneValue_scalar _ rfl, by decide, by decide⟩
+/-! ### the complete dispatch (`Main.tables`): lists, hashes, sets, sorted sets, scans -/
+
+/-- the server's complete handler table satisfies the well-formedness predicate: EVERY handler of
+    every family, for every argument vector, store, clock and choice, panicking or not, writes exactly
+    one complete RESP value.  No handler is left that can write anything else (the dead `done s []`
+    branches of the scans and of Z*STORE are shown dead by result-shape lemmas of the Api functions). -/
+theorem fullTable_ok : TableOneReply fullTable := fullTable_oneReply
+
+/-- … and only tokens a strict reader accepts -/
+theorem fullTable_wire_ok : TableWire fullTable := fullTable_wire
+
+/-- every command that goes through the complete table, any server state -/
+theorem one_reply_full_nonspecial (sv : Server) (c : Cmd) (hs : ¬ special c.name) :
+    oneValue (step fullTable sv c).2 = true := one_reply_nonspecial fullTable_ok sv c hs
+
+/-- every command whatsoever (MULTI / EXEC / … included) along every schedule from a fresh server -/
+theorem one_reply_full (st : MState) (cs : List Cmd) : ∀ r ∈ (run fullTable { store := st } cs).2, oneValue r = true :=
+  run_one_reply fullTable_ok cs (QueuesSat.init OneBody st)
+
+theorem one_reply_per_command_LPUSH (sv : Server) (c : Cmd) (hn : c.name = "LPUSH") :
+    oneValue (step fullTable sv c).2 = true :=
+  one_reply_full_nonspecial sv c (by rw [hn]; decide)
+theorem one_reply_per_command_RPUSH (sv : Server) (c : Cmd) (hn : c.name = "RPUSH") :
+    oneValue (step fullTable sv c).2 = true :=
+  one_reply_full_nonspecial sv c (by rw [hn]; decide)
+theorem one_reply_per_command_LPOP (sv : Server) (c : Cmd) (hn : c.name = "LPOP") :
+    oneValue (step fullTable sv c).2 = true :=
+  one_reply_full_nonspecial sv c (by rw [hn]; decide)
+theorem one_reply_per_command_RPOP (sv : Server) (c : Cmd) (hn : c.name = "RPOP") :
+    oneValue (step fullTable sv c).2 = true :=
+  one_reply_full_nonspecial sv c (by rw [hn]; decide)
+theorem one_reply_per_command_LLEN (sv : Server) (c : Cmd) (hn : c.name = "LLEN") :
+    oneValue (step fullTable sv c).2 = true :=
+  one_reply_full_nonspecial sv c (by rw [hn]; decide)
+theorem one_reply_per_command_LINDEX (sv : Server) (c : Cmd) (hn : c.name = "LINDEX") :
+    oneValue (step fullTable sv c).2 = true :=
+  one_reply_full_nonspecial sv c (by rw [hn]; decide)
+theorem one_reply_per_command_LINSERT (sv : Server) (c : Cmd) (hn : c.name = "LINSERT") :
+    oneValue (step fullTable sv c).2 = true :=
+  one_reply_full_nonspecial sv c (by rw [hn]; decide)
+theorem one_reply_per_command_LPUSHX (sv : Server) (c : Cmd) (hn : c.name = "LPUSHX") :
+    oneValue (step fullTable sv c).2 = true :=
+  one_reply_full_nonspecial sv c (by rw [hn]; decide)
+theorem one_reply_per_command_RPUSHX (sv : Server) (c : Cmd) (hn : c.name = "RPUSHX") :
+    oneValue (step fullTable sv c).2 = true :=
+  one_reply_full_nonspecial sv c (by rw [hn]; decide)
+theorem one_reply_per_command_LREM (sv : Server) (c : Cmd) (hn : c.name = "LREM") :
+    oneValue (step fullTable sv c).2 = true :=
+  one_reply_full_nonspecial sv c (by rw [hn]; decide)
+theorem one_reply_per_command_LTRIM (sv : Server) (c : Cmd) (hn : c.name = "LTRIM") :
+    oneValue (step fullTable sv c).2 = true :=
+  one_reply_full_nonspecial sv c (by rw [hn]; decide)
+theorem one_reply_per_command_LSET (sv : Server) (c : Cmd) (hn : c.name = "LSET") :
+    oneValue (step fullTable sv c).2 = true :=
+  one_reply_full_nonspecial sv c (by rw [hn]; decide)
+theorem one_reply_per_command_LRANGE (sv : Server) (c : Cmd) (hn : c.name = "LRANGE") :
+    oneValue (step fullTable sv c).2 = true :=
+  one_reply_full_nonspecial sv c (by rw [hn]; decide)
+theorem one_reply_per_command_LPOPRPUSH (sv : Server) (c : Cmd) (hn : c.name = "LPOPRPUSH") :
+    oneValue (step fullTable sv c).2 = true :=
+  one_reply_full_nonspecial sv c (by rw [hn]; decide)
+theorem one_reply_per_command_RPOPLPUSH (sv : Server) (c : Cmd) (hn : c.name = "RPOPLPUSH") :
+    oneValue (step fullTable sv c).2 = true :=
+  one_reply_full_nonspecial sv c (by rw [hn]; decide)
+theorem one_reply_per_command_HSET (sv : Server) (c : Cmd) (hn : c.name = "HSET") :
+    oneValue (step fullTable sv c).2 = true :=
+  one_reply_full_nonspecial sv c (by rw [hn]; decide)
+theorem one_reply_per_command_HGET (sv : Server) (c : Cmd) (hn : c.name = "HGET") :
+    oneValue (step fullTable sv c).2 = true :=
+  one_reply_full_nonspecial sv c (by rw [hn]; decide)
+theorem one_reply_per_command_HDEL (sv : Server) (c : Cmd) (hn : c.name = "HDEL") :
+    oneValue (step fullTable sv c).2 = true :=
+  one_reply_full_nonspecial sv c (by rw [hn]; decide)
+theorem one_reply_per_command_HLEN (sv : Server) (c : Cmd) (hn : c.name = "HLEN") :
+    oneValue (step fullTable sv c).2 = true :=
+  one_reply_full_nonspecial sv c (by rw [hn]; decide)
+theorem one_reply_per_command_HKEYS (sv : Server) (c : Cmd) (hn : c.name = "HKEYS") :
+    oneValue (step fullTable sv c).2 = true :=
+  one_reply_full_nonspecial sv c (by rw [hn]; decide)
+theorem one_reply_per_command_HEXISTS (sv : Server) (c : Cmd) (hn : c.name = "HEXISTS") :
+    oneValue (step fullTable sv c).2 = true :=
+  one_reply_full_nonspecial sv c (by rw [hn]; decide)
+theorem one_reply_per_command_HGETALL (sv : Server) (c : Cmd) (hn : c.name = "HGETALL") :
+    oneValue (step fullTable sv c).2 = true :=
+  one_reply_full_nonspecial sv c (by rw [hn]; decide)
+theorem one_reply_per_command_HINCRBY (sv : Server) (c : Cmd) (hn : c.name = "HINCRBY") :
+    oneValue (step fullTable sv c).2 = true :=
+  one_reply_full_nonspecial sv c (by rw [hn]; decide)
+theorem one_reply_per_command_HINCRBYFLOAT (sv : Server) (c : Cmd) (hn : c.name = "HINCRBYFLOAT") :
+    oneValue (step fullTable sv c).2 = true :=
+  one_reply_full_nonspecial sv c (by rw [hn]; decide)
+theorem one_reply_per_command_HSETNX (sv : Server) (c : Cmd) (hn : c.name = "HSETNX") :
+    oneValue (step fullTable sv c).2 = true :=
+  one_reply_full_nonspecial sv c (by rw [hn]; decide)
+theorem one_reply_per_command_HMGET (sv : Server) (c : Cmd) (hn : c.name = "HMGET") :
+    oneValue (step fullTable sv c).2 = true :=
+  one_reply_full_nonspecial sv c (by rw [hn]; decide)
+theorem one_reply_per_command_HMSET (sv : Server) (c : Cmd) (hn : c.name = "HMSET") :
+    oneValue (step fullTable sv c).2 = true :=
+  one_reply_full_nonspecial sv c (by rw [hn]; decide)
+theorem one_reply_per_command_HCLEAR (sv : Server) (c : Cmd) (hn : c.name = "HCLEAR") :
+    oneValue (step fullTable sv c).2 = true :=
+  one_reply_full_nonspecial sv c (by rw [hn]; decide)
+theorem one_reply_per_command_HSTRLEN (sv : Server) (c : Cmd) (hn : c.name = "HSTRLEN") :
+    oneValue (step fullTable sv c).2 = true :=
+  one_reply_full_nonspecial sv c (by rw [hn]; decide)
+theorem one_reply_per_command_HVALS (sv : Server) (c : Cmd) (hn : c.name = "HVALS") :
+    oneValue (step fullTable sv c).2 = true :=
+  one_reply_full_nonspecial sv c (by rw [hn]; decide)
+theorem one_reply_per_command_SADD (sv : Server) (c : Cmd) (hn : c.name = "SADD") :
+    oneValue (step fullTable sv c).2 = true :=
+  one_reply_full_nonspecial sv c (by rw [hn]; decide)
+theorem one_reply_per_command_SMOVE (sv : Server) (c : Cmd) (hn : c.name = "SMOVE") :
+    oneValue (step fullTable sv c).2 = true :=
+  one_reply_full_nonspecial sv c (by rw [hn]; decide)
+theorem one_reply_per_command_SCARD (sv : Server) (c : Cmd) (hn : c.name = "SCARD") :
+    oneValue (step fullTable sv c).2 = true :=
+  one_reply_full_nonspecial sv c (by rw [hn]; decide)
+theorem one_reply_per_command_SPOP (sv : Server) (c : Cmd) (hn : c.name = "SPOP") :
+    oneValue (step fullTable sv c).2 = true :=
+  one_reply_full_nonspecial sv c (by rw [hn]; decide)
+theorem one_reply_per_command_SDIFF (sv : Server) (c : Cmd) (hn : c.name = "SDIFF") :
+    oneValue (step fullTable sv c).2 = true :=
+  one_reply_full_nonspecial sv c (by rw [hn]; decide)
+theorem one_reply_per_command_SDIFFSTORE (sv : Server) (c : Cmd) (hn : c.name = "SDIFFSTORE") :
+    oneValue (step fullTable sv c).2 = true :=
+  one_reply_full_nonspecial sv c (by rw [hn]; decide)
+theorem one_reply_per_command_SINTER (sv : Server) (c : Cmd) (hn : c.name = "SINTER") :
+    oneValue (step fullTable sv c).2 = true :=
+  one_reply_full_nonspecial sv c (by rw [hn]; decide)
+theorem one_reply_per_command_SINTERSTORE (sv : Server) (c : Cmd) (hn : c.name = "SINTERSTORE") :
+    oneValue (step fullTable sv c).2 = true :=
+  one_reply_full_nonspecial sv c (by rw [hn]; decide)
+theorem one_reply_per_command_SUNION (sv : Server) (c : Cmd) (hn : c.name = "SUNION") :
+    oneValue (step fullTable sv c).2 = true :=
+  one_reply_full_nonspecial sv c (by rw [hn]; decide)
+theorem one_reply_per_command_SUNIONSTORE (sv : Server) (c : Cmd) (hn : c.name = "SUNIONSTORE") :
+    oneValue (step fullTable sv c).2 = true :=
+  one_reply_full_nonspecial sv c (by rw [hn]; decide)
+theorem one_reply_per_command_SISMEMBER (sv : Server) (c : Cmd) (hn : c.name = "SISMEMBER") :
+    oneValue (step fullTable sv c).2 = true :=
+  one_reply_full_nonspecial sv c (by rw [hn]; decide)
+theorem one_reply_per_command_SMEMBERS (sv : Server) (c : Cmd) (hn : c.name = "SMEMBERS") :
+    oneValue (step fullTable sv c).2 = true :=
+  one_reply_full_nonspecial sv c (by rw [hn]; decide)
+theorem one_reply_per_command_SRANDMEMBER (sv : Server) (c : Cmd) (hn : c.name = "SRANDMEMBER") :
+    oneValue (step fullTable sv c).2 = true :=
+  one_reply_full_nonspecial sv c (by rw [hn]; decide)
+theorem one_reply_per_command_SREM (sv : Server) (c : Cmd) (hn : c.name = "SREM") :
+    oneValue (step fullTable sv c).2 = true :=
+  one_reply_full_nonspecial sv c (by rw [hn]; decide)
+theorem one_reply_per_command_ZADD (sv : Server) (c : Cmd) (hn : c.name = "ZADD") :
+    oneValue (step fullTable sv c).2 = true :=
+  one_reply_full_nonspecial sv c (by rw [hn]; decide)
+theorem one_reply_per_command_ZCARD (sv : Server) (c : Cmd) (hn : c.name = "ZCARD") :
+    oneValue (step fullTable sv c).2 = true :=
+  one_reply_full_nonspecial sv c (by rw [hn]; decide)
+theorem one_reply_per_command_ZRANK (sv : Server) (c : Cmd) (hn : c.name = "ZRANK") :
+    oneValue (step fullTable sv c).2 = true :=
+  one_reply_full_nonspecial sv c (by rw [hn]; decide)
+theorem one_reply_per_command_ZREVRANK (sv : Server) (c : Cmd) (hn : c.name = "ZREVRANK") :
+    oneValue (step fullTable sv c).2 = true :=
+  one_reply_full_nonspecial sv c (by rw [hn]; decide)
+theorem one_reply_per_command_ZSCORE (sv : Server) (c : Cmd) (hn : c.name = "ZSCORE") :
+    oneValue (step fullTable sv c).2 = true :=
+  one_reply_full_nonspecial sv c (by rw [hn]; decide)
+theorem one_reply_per_command_ZINCRBY (sv : Server) (c : Cmd) (hn : c.name = "ZINCRBY") :
+    oneValue (step fullTable sv c).2 = true :=
+  one_reply_full_nonspecial sv c (by rw [hn]; decide)
+theorem one_reply_per_command_ZRANGE (sv : Server) (c : Cmd) (hn : c.name = "ZRANGE") :
+    oneValue (step fullTable sv c).2 = true :=
+  one_reply_full_nonspecial sv c (by rw [hn]; decide)
+theorem one_reply_per_command_ZREVRANGE (sv : Server) (c : Cmd) (hn : c.name = "ZREVRANGE") :
+    oneValue (step fullTable sv c).2 = true :=
+  one_reply_full_nonspecial sv c (by rw [hn]; decide)
+theorem one_reply_per_command_ZRANGEBYSCORE (sv : Server) (c : Cmd) (hn : c.name = "ZRANGEBYSCORE") :
+    oneValue (step fullTable sv c).2 = true :=
+  one_reply_full_nonspecial sv c (by rw [hn]; decide)
+theorem one_reply_per_command_ZREVRANGEBYSCORE (sv : Server) (c : Cmd) (hn : c.name = "ZREVRANGEBYSCORE") :
+    oneValue (step fullTable sv c).2 = true :=
+  one_reply_full_nonspecial sv c (by rw [hn]; decide)
+theorem one_reply_per_command_ZCOUNT (sv : Server) (c : Cmd) (hn : c.name = "ZCOUNT") :
+    oneValue (step fullTable sv c).2 = true :=
+  one_reply_full_nonspecial sv c (by rw [hn]; decide)
+theorem one_reply_per_command_ZREM (sv : Server) (c : Cmd) (hn : c.name = "ZREM") :
+    oneValue (step fullTable sv c).2 = true :=
+  one_reply_full_nonspecial sv c (by rw [hn]; decide)
+theorem one_reply_per_command_ZREMRANGEBYRANK (sv : Server) (c : Cmd) (hn : c.name = "ZREMRANGEBYRANK") :
+    oneValue (step fullTable sv c).2 = true :=
+  one_reply_full_nonspecial sv c (by rw [hn]; decide)
+theorem one_reply_per_command_ZREMRANGEBYSCORE (sv : Server) (c : Cmd) (hn : c.name = "ZREMRANGEBYSCORE") :
+    oneValue (step fullTable sv c).2 = true :=
+  one_reply_full_nonspecial sv c (by rw [hn]; decide)
+theorem one_reply_per_command_ZUNIONSTORE (sv : Server) (c : Cmd) (hn : c.name = "ZUNIONSTORE") :
+    oneValue (step fullTable sv c).2 = true :=
+  one_reply_full_nonspecial sv c (by rw [hn]; decide)
+theorem one_reply_per_command_ZINTERSTORE (sv : Server) (c : Cmd) (hn : c.name = "ZINTERSTORE") :
+    oneValue (step fullTable sv c).2 = true :=
+  one_reply_full_nonspecial sv c (by rw [hn]; decide)
+theorem one_reply_per_command_ZCLEAR (sv : Server) (c : Cmd) (hn : c.name = "ZCLEAR") :
+    oneValue (step fullTable sv c).2 = true :=
+  one_reply_full_nonspecial sv c (by rw [hn]; decide)
+theorem one_reply_per_command_ZEXISTS (sv : Server) (c : Cmd) (hn : c.name = "ZEXISTS") :
+    oneValue (step fullTable sv c).2 = true :=
+  one_reply_full_nonspecial sv c (by rw [hn]; decide)
+theorem one_reply_per_command_SSCAN (sv : Server) (c : Cmd) (hn : c.name = "SSCAN") :
+    oneValue (step fullTable sv c).2 = true :=
+  one_reply_full_nonspecial sv c (by rw [hn]; decide)
+theorem one_reply_per_command_HSCAN (sv : Server) (c : Cmd) (hn : c.name = "HSCAN") :
+    oneValue (step fullTable sv c).2 = true :=
+  one_reply_full_nonspecial sv c (by rw [hn]; decide)
+theorem one_reply_per_command_ZSCAN (sv : Server) (c : Cmd) (hn : c.name = "ZSCAN") :
+    oneValue (step fullTable sv c).2 = true :=
+  one_reply_full_nonspecial sv c (by rw [hn]; decide)
 
 /-! ## pipelines stay in sync -/
 
@@ -379,22 +536,25 @@ theorem pipeline_in_sync_wellformed {H : Table} (hH : TableOneReply H) (hW : Tab
   simp only [List.length_map] at this
   rw [← this]; exact run_replies_length H cmds _
 
-theorem table1NoMGet_wire : TableWire table1NoMGet := by
-  intro name args r h
-  unfold table1NoMGet at h
-  split at h
-  · cases h
-  · exact table1_wire name args r h
-
-/-- … in particular for the real handler table (connection / keyspace / string families) without MGET:
+/-- … in particular for the handler table of the connection / keyspace / string families:
     any pipeline, any arguments, any store: k commands + marker ⇒ exactly k + 1 replies, in order -/
 theorem pipeline_in_sync_table1 (st : MState) (cmds : List Cmd) (marker : Cmd) (rest : Bytes) :
     ∃ (vs : List Value) (vm : Value), vs.length = cmds.length ∧
-      (run table1NoMGet { store := st } cmds).2.map toValue = vs.map some ∧
-      toValue (step table1NoMGet (run table1NoMGet { store := st } cmds).1 marker).2 = some vm ∧
-      parseMany (cmds.length + 1) ((run table1NoMGet { store := st } (cmds ++ [marker])).2.flatMap renderAll ++ rest) =
+      (run Handler.table1 { store := st } cmds).2.map toValue = vs.map some ∧
+      toValue (step Handler.table1 (run Handler.table1 { store := st } cmds).1 marker).2 = some vm ∧
+      parseMany (cmds.length + 1) ((run Handler.table1 { store := st } (cmds ++ [marker])).2.flatMap renderAll ++ rest) =
         some (vs ++ [vm], rest) :=
-  pipeline_in_sync_wellformed table1NoMGet_ok table1NoMGet_wire st cmds marker rest
+  pipeline_in_sync_wellformed table1_ok table1_wire st cmds marker rest
+
+/-- the server's complete dispatch: ANY pipeline of ANY commands of ANY connections from a fresh
+    server on any store: k commands + marker ⇒ exactly k + 1 values, in order, nothing left over -/
+theorem pipeline_in_sync_full (st : MState) (cmds : List Cmd) (marker : Cmd) (rest : Bytes) :
+    ∃ (vs : List Value) (vm : Value), vs.length = cmds.length ∧
+      (run fullTable { store := st } cmds).2.map toValue = vs.map some ∧
+      toValue (step fullTable (run fullTable { store := st } cmds).1 marker).2 = some vm ∧
+      parseMany (cmds.length + 1) ((run fullTable { store := st } (cmds ++ [marker])).2.flatMap renderAll ++ rest) =
+        some (vs ++ [vm], rest) :=
+  pipeline_in_sync_wellformed fullTable_ok fullTable_wire_ok st cmds marker rest
 
 /-! ## the EXEC reply -/
 
@@ -441,8 +601,8 @@ theorem exec_array_matches_queue (H : Table) (sv : Server) (c : Cmd) (hn : c.nam
 
 /-! ## non-vacuity -/
 
-example : TableOneReply table1NoMGet := table1NoMGet_ok
-example : ∃ r, table1NoMGet "GET" [[1]] = some r := ⟨_, rfl⟩
+example : TableOneReply Handler.table1 := table1_ok
+example : ∃ r, Handler.table1 "GET" [[1]] = some r := ⟨_, rfl⟩
 example : QueuesSat OneBody ({} : Server) := QueuesSat.init _ {}
 /-- a concrete pipeline: three commands and a marker, replies and parse computed -/
 example :
@@ -450,6 +610,18 @@ example :
       { id := "c", name := "NOSUCH" }, { id := "c", name := "PING" }]).2 =
     [[okTok], [Tok.bulk [13, 10]], [Tok.err 0], [Tok.bulk (Bytes.ofString "PONG")]] := by decide +kernel
 
-/- UNPROVED: nothing. (MGET is a finding, not a gap: `one_reply_per_command_MGET_partial` / `_finding`.) -/
+/- UNPROVED: nothing.  No finding is left: every handler of `fullTable` writes exactly one well-formed value. -/
+
+/-- a pipeline across the families (lists, sorted sets with scores, hashes, a wrong-type error, PING) -/
+example :
+    (run fullTable {} [ { id := "c", name := "RPUSH", args := [[108], [97], [98]] },
+      { id := "c", name := "LRANGE", args := [[108], [48], [45, 49]] },
+      { id := "c", name := "ZADD", args := [[122], [49], [109]] },
+      { id := "c", name := "ZRANGE", args := [[122], [48], [45, 49], [87, 73, 84, 72, 83, 67, 79, 82, 69, 83]] },
+      { id := "c", name := "HSET", args := [[104], [102], [118]] }, { id := "c", name := "HGETALL", args := [[104]] },
+      { id := "c", name := "ZRANGE", args := [[108], [48], [45, 49]] }, { id := "c", name := "PING" }]).2 =
+    [[Tok.int 2], [Tok.arr 2, Tok.bulk [97], Tok.bulk [98]], [Tok.int 1], [Tok.arr 2, Tok.bulk [109], Tok.bulk [49]],
+     [Tok.int 1], [Tok.arr 2, Tok.bulk [102], Tok.bulk [118]], [Tok.err 1], [Tok.bulk [80, 79, 78, 71]]] := by
+  decide +kernel
 
 end NodisVerif.C16
